@@ -25,6 +25,8 @@ RULES = {
     'C05.e': 'the full synchronisation skips the token key, the connections key and the admin database (and nothing else)',
     'C05.f': 'every supervisor word has an arm in the supervisor loop; replicate-since-to computes the commands for '
              'start_at and sends them to the named member',
+    'C05.g': 'a tombstone stays in memory until a reclaiming snapshot: the full synchronisation learns about removals only from '
+             'in-memory tombstones, so the incremental snapshot must not drop them',
 }
 
 
@@ -154,18 +156,16 @@ def run(ck, m):
               '%s changes data on the receiver but the replication loop writes no oplog record for it: an incremental '
               'resync cannot know about the change' % v, lb.loc(osw[0]) if osw else '')
     # ---- (d) ---------------------------------------------------------------------------
-    starts = [b for b in P.user_bodies() if any(callee(t).endswith('disk_ops::is_oplog_valid') for _, t in b.calls())
-              and any(callee(t).endswith('db_ops::create_init_dbs') for _, t in b.calls())]
-    if len(starts) != 1:
-        ck.undecided('C05.d', 'start-up', 'anchor', 'expected one start-up body calling is_oplog_valid and create_init_dbs, found %d' % len(starts))
+    try:
+        sb, cbi, db_, vbi, hbi = repl.startup_unit(m)
+    except core.AnchorError as e:
+        ck.undecided('C05.d', 'start-up', 'anchor', str(e))
     else:
-        sb = starts[0]
-        vbi = [bi for bi, t in sb.calls() if callee(t).endswith('disk_ops::is_oplog_valid')][0]
-        cbi = [bi for bi, t in sb.calls() if callee(t).endswith('db_ops::create_init_dbs')][0]
-        cleans = {bi for bi, t in sb.calls() if 'clean_op_log_metadata' in callee(t)}
+        cleans = {bi for bi, t in db_.calls() if 'clean_op_log_metadata' in callee(t)}
+        goals = {cbi} if hbi is None else set(db_.return_blocks())
         ok = False
-        for (s2, tt, ft) in bool_switches(sb, vbi):
-            # from the invalid edge, every path to the construction passes a clean-up call
+        for (s2, tt, ft) in bool_switches(db_, vbi):
+            # from the invalid edge, every path to the construction (or out of the deciding helper) passes a clean-up call
             seen = set()
             st = [ft]
             reached = False
@@ -174,13 +174,13 @@ def run(ck, m):
                 if x in seen or x in cleans:
                     continue
                 seen.add(x)
-                if x == cbi:
+                if x in goals:
                     reached = True
-                st.extend(sb.succ(x))
+                st.extend(db_.succ(x))
             ok = bool(cleans) and not reached
         ck.ob('C05.d', short(sb.id), 'invalid-flag-cleans-before-build', ok,
               'on the invalid branch the oplog metadata is removed before Databases is built' if ok else
-              'Databases can be built from stale oplog metadata after an invalid flag', sb.loc(vbi))
+              'Databases can be built from stale oplog metadata after an invalid flag', db_.loc(vbi))
     # since == 0 -> full
     okz = False
     for bl in entry.blocks:
@@ -248,3 +248,17 @@ def run(ck, m):
     ck.ob('C05.f', short(sb.id), 'replicate-since-to:answers-with-catch-up', okc,
           'replicate-since-to computes the catch-up commands for the parsed start_at' if okc else
           'replicate-since-to does not call the catch-up builder with the parsed start', '%s:%s' % (sb.file, sb.line))
+
+    # ---- (g) tombstones survive the incremental snapshot --------------------------------------
+    from props import C06
+    try:
+        wb, tm, regions = C06.writer_cells(m)
+        reg = regions[('Deleted', 'incremental')] | regions[('Deleted', 'both')]
+        effs, raw = m.effects_from(wb, block_filter=reg)
+        drops = [ev for ev, kind, inf in effs if kind == 'map-write' and inf.get('method') in ('remove', 'remove_entry', 'clear', 'retain')]
+        ck.ob('C05.g', short(wb.id), 'incremental-snapshot-keeps-tombstones', not drops,
+              'the incremental snapshot keeps the tombstone in memory (only the reclaiming one drops it)' if not drops else
+              'the incremental snapshot removes the tombstone from memory (%s): a full synchronisation afterwards no longer sends '
+              'replicate-remove for the key, the rejoining node keeps it' % drops[0].where(), wb.loc(tm['Deleted']))
+    except core.AnchorError as e:
+        ck.undecided('C05.g', 'writer', 'anchor', str(e))
